@@ -457,7 +457,8 @@ def add_weak(rng, spec, j):
     return spec
 
 
-def gen_spec(rng, mmax, k, mmin=1):
+def gen_spec(rng, mmax, k, mmin=1, close=False):
+    """close: two of the global modes are 1-4 % apart in frequency (closer than the default rtol of mpe), different damping."""
     m = int(rng.integers(mmin, mmax + 1))
     while True:
         nset = int(rng.integers(2, 5))
@@ -473,6 +474,13 @@ def gen_spec(rng, mmax, k, mmin=1):
         else:  # a jittered grid: five well separated frequencies are rare among uniform draws
             fn = (0.06 + (0.34 / m) * (np.arange(m) + 0.6 * rng.uniform(0, 1, m))) * fs
         xi = rng.uniform(0.005, 0.03, m)
+        if close:
+            j = int(rng.integers(0, m - 1))
+            fn = np.array(fn)
+            fn[j + 1] = fn[j] * (1.0 + float(rng.uniform(0.01, 0.04)))
+            if np.any(np.diff(fn) <= 0) or (m > 2 and np.sort(np.diff(fn))[1] < 0.04 * fs):
+                continue
+            xi[j + 1] = xi[j] * (2.0 if xi[j] < 0.0125 else 0.5)
         nglob = nref + sum(nmovs)
         Cre = rng.integers(-8, 9, size=(nglob, m)) / 4.0
         cplx = k % 4 == 3
@@ -489,7 +497,11 @@ def gen_spec(rng, mmax, k, mmin=1):
             br += 1
         spec = dict(kind="ssi", m=m, fs=fs, N=600, fn=fn.tolist(), xi=xi.tolist(), Cre=Cre.tolist(), Cim=Cim.tolist(), nref=nref, nmovs=nmovs,
                     pos=pos, x0=x0, gexp=gexp, br=br, cplx=bool(cplx))
-        if conditioning(spec) <= 200.0:
+        if close:
+            spec["close"] = True
+            if conditioning(spec) > 1000.0:  # close poles are told apart over more block rows: allow them
+                spec["br"] = br = br + 4
+        if conditioning(spec) <= (1000.0 if close else 200.0):
             return spec
 
 
@@ -757,8 +769,14 @@ def e2e_object(ctx, spec, methods, order_k):
     first_order = [int(x) for x in spec["mpe_order"]] if spec.get("mpe_order") else (asc if order_k % 2 == 0 else rev)
     orders = [first_order, rev if first_order == asc else rot]
 
+    nreq = [0]
+
     def request(nm, perm):
-        ms.mpe(nm, sel_freq=[float(spec["fn"][i]) for i in perm], order=2 * m)
+        """alternately with the default rtol (as a user would call it) and with a tight one"""
+        kw = {} if nreq[0] % 2 == 0 else {"rtol": 1e-3}
+        nreq[0] += 1
+        ctx.hist("mpe_rtol", "default" if not kw else "1e-3")
+        ms.mpe(nm, sel_freq=[float(spec["fn"][i]) for i in perm], order=2 * m, **kw)
 
     forms = [f for f in REF_FORMS if as_form(spec["pos"], f) is not None]
     form = forms[order_k % len(forms)]
@@ -820,7 +838,8 @@ def run(ctx):
                          "per case, both methods, every case identified repeatedly on the same split data / the same object (inputs must stay bit-equal), "
                          "one case in four with one mode 10^-2..10^-6 weaker in a later setup (tolerance 1000 eps kappa(H), not judged above 2e-2); "
                          "reference index lists in every accepted container form (lists, int64/int32 arrays, tuples, 2-D array); mpe requests in ascending, "
-                         "descending, rotated and zig-zag order (triple k = the mode requested at position k); "
+                         "descending, rotated and zig-zag order (triple k = the mode requested at position k), default and tight rtol; one case in four "
+                         "with two global modes 1-4 % apart; "
                          "non-trivial = always (>= 2 setups, gains differ); distinct by hash of the full spec")
     ctx.assumptions += [
         "oracle contracts (hypotheses of C03_identifies_global_partial): np.linalg.svd per setup delivers Obs_k = O_k T_k with T_k right-invertible "
@@ -845,7 +864,10 @@ def run(ctx):
     nssi = ctx.n(20, 120)
     nweak = 0
     for k in range(nssi):
-        if k % 4 == 2:  # strongly unequal modal participation in a later setup
+        if k % 4 == 1:  # two global modes 1-4 % apart: closer than mpe's default rtol, every request must still get its own mode
+            specs.append(gen_spec(rng, max(mmax, 2), k, mmin=2, close=True))
+            ctx.hist("ssi_stream", "generated-close-modes")
+        elif k % 4 == 2:  # strongly unequal modal participation in a later setup
             sp = gen_spec(rng, max(mmax, 2), k, mmin=2)
             specs.append(add_weak(rng, sp, nweak))
             nweak += 1
